@@ -47,6 +47,7 @@ type Cfg struct {
 	SO       bool     `json:"so"`      // server storage = the store-once test back end, which looks records up by node id ITSELF
 	TwoH     bool     `json:"twoh"`    // file back end, two handles on one directory: the listener holds one, the operator uses the other
 	LState   bool     `json:"lstate"`  // the listener's own Options carry WithState (legitimate: they feed the fetch function)
+	LSkew    bool     `json:"lskew"`   // the listener's own Options carry WithNotAfterClockSkew(0) (legitimate: it tunes request validation)
 	Nide     bool     `json:"nide"`    // node-id lookups that find nothing answer with an empty set instead of not-found
 	LifeSec  int      `json:"lifeSec"` // root lifetime in seconds (0: library default); short lifetimes enable RotateWait
 }
@@ -272,6 +273,9 @@ func Run(bh Behaviour, seed int64) ([]Line, error) {
 	if bh.Cfg.LState {
 		ls, _ := structpb.NewStruct(map[string]any{"owner": "listener", "configured": true})
 		sc.ExtraOpts = append(sc.ExtraOpts, nodeenrollment.WithState(ls))
+	}
+	if bh.Cfg.LSkew {
+		sc.ExtraOpts = append(sc.ExtraOpts, nodeenrollment.WithNotAfterClockSkew(0))
 	}
 	srv, err := hs.NewServer(sc)
 	if err != nil {
